@@ -726,3 +726,135 @@ R("unstake-maturity-local", ["C11"],
   ("action/staking/unstake.go", """	err = ctx.Delegators.Unstake(ust.ValidatorAddress, ust.StakeAddress, ust.Stake.Value, height+options.MaturityTime)""",
    """	matureAt := options.MaturityTime + height
 	err = ctx.Delegators.Unstake(ust.ValidatorAddress, ust.StakeAddress, ust.Stake.Value, matureAt)"""))
+
+# ------------------------------------------------------------------ C19
+M("vote-drop-active-check", "C19", "C19.handler.vote",
+  ("action/evidence/vote.go", """	if !ctx.EvidenceStore.IsActiveValidator(al.Address) {
+		return helpers.LogAndReturnFalse(ctx.Logger, evidence.ErrNonActiveValidator, al.Tags(), err)
+	}
+""", ""))
+M("allegation-active-checks-accused", "C19", "C19.handler.allegation",
+  ("action/evidence/allegation.go", """	if !ctx.EvidenceStore.IsActiveValidator(al.ValidatorAddress) {""", """	if !ctx.EvidenceStore.IsActiveValidator(al.MaliciousAddress) {"""))
+M("vote-dedupe-removed", "C19", "C19.vote",
+  ("data/evidence/store.go", """		if vote.Address.Equal(voteAddress) {
+			return fmt.Errorf("You have been already voted on this request")
+		}""", """		if vote.Address.Equal(voteAddress) {
+			break
+		}"""))
+M("vote-on-closed-request", "C19", "C19.vote",
+  ("data/evidence/store.go", """	if ar.Status == GUILTY || ar.Status == INNOCENT {""", """	if ar.Status == GUILTY {"""))
+M("release-without-ready", "C19", "C19.release",
+  ("data/evidence/store.go", """	if !isReady {
+		return fmt.Errorf("Validator \\"%s\\" not ready for release", validatorAddress)
+	}
+""", """	_ = isReady
+"""))
+M("guilty-on-no-share", "C19", "C19.tally",
+  ("identity/validator_set_allegation.go", """		if yesP > percentage {""", """		if yesP > percentage || noP < percentage {"""))
+M("bounty-without-slash", "C19", "C19.tally",
+  ("identity/validator_set_allegation.go", """			if err == nil {
+				bountyCoin := balance.Coin{""", """			if err == nil || pAmt.Sign() > 0 {
+				bountyCoin := balance.Coin{"""))
+M("release-field-written-elsewhere", "C19", "C19.release.who",
+  ("data/evidence/store.go", """func (es *EvidenceStore) UpdateSuspiciousValidator(lvh *LastValidatorHistory) error {""", """func (es *EvidenceStore) UpdateSuspiciousValidator(lvh *LastValidatorHistory) error {
+	if lvh.ReleaseAt == nil && lvh.Status == MISSED_REQUIRED_VOTES {
+		lvh.ReleaseAt = lvh.FrozenAt
+	}"""))
+R("vote-guards-switch", ["C19"],
+  ("data/evidence/store.go", """	if choice != YES && choice != NO {
+		return fmt.Errorf("Invalid choice, only YES or NO available")
+	}
+	if ar.Status == GUILTY || ar.Status == INNOCENT {
+		return fmt.Errorf("Could not vote on closed requet")
+	}""", """	switch choice {
+	case YES, NO:
+	default:
+		return fmt.Errorf("Invalid choice, only YES or NO available")
+	}
+	switch ar.Status {
+	case GUILTY, INNOCENT:
+		return fmt.Errorf("Could not vote on closed requet")
+	}"""))
+
+# ------------------------------------------------------------------ C20
+M("update-drop-owner-check", "C20", "C20.owner",
+  ("action/ons/update.go", """	if !bytes.Equal(d.Owner, update.Owner) {
+		return false, action.Response{Log: fmt.Sprintf("domain is not owned by: %s", hex.EncodeToString(update.Owner))}
+	}
+""", """	_ = hex.EncodeToString
+	_ = bytes.Equal
+"""))
+M("sale-owner-check-inverted", "C20", "C20.owner",
+  ("action/ons/sale.go", """	if bytes.Compare(domain.Owner, sale.OwnerAddress) != 0 {""", """	if bytes.Compare(domain.Owner, sale.OwnerAddress) == 0 {"""))
+M("renew-owner-check-after-payment", "C20", "C20.owner",
+  ("action/ons/renew.go", """	// the sender must be the owner of the domain
+	if !bytes.Equal(renewDomain.Owner, domain.Owner) {
+		return false, action.Response{Log: "only domain owner can renew a domain"}
+	}
+
+	//Transfer funds to the fee pool
+	price := renewDomain.BuyingPrice.ToCoin(ctx.Currencies)
+	err = ctx.Balances.MinusFromAddress(renewDomain.Owner, price)
+	if err != nil {
+		return false, action.Response{Log: err.Error()}
+	}
+""", """	//Transfer funds to the fee pool
+	price := renewDomain.BuyingPrice.ToCoin(ctx.Currencies)
+	err = ctx.Balances.MinusFromAddress(renewDomain.Owner, price)
+	if err != nil {
+		return false, action.Response{Log: err.Error()}
+	}
+
+	// the sender must be the owner of the domain
+	if !bytes.Equal(renewDomain.Owner, domain.Owner) {
+		return false, action.Response{Log: "only domain owner can renew a domain"}
+	}
+"""))
+M("deletesub-owner-compares-name", "C20", "C20.owner",
+  ("action/ons/deleteSub.go", """	if !bytes.Equal(parent.Owner, del.Owner) {""", """	if !bytes.Equal(parent.Owner, parent.Owner) {"""))
+M("create-exists-check-dropped", "C20", "C20.create",
+  ("action/ons/create.go", """	if ctx.Domains.Exists(create.Name) {
+		return false, action.Response{
+			Log: codes.ErrDomainExists.Marshal(),
+		}
+	}
+""", ""))
+M("create-sub-parent-owner-dropped", "C20", "C20.create",
+  ("action/ons/create.go", """		if !bytes.Equal(parent.Owner, create.Owner) {
+			return false, action.Response{
+				Log: codes.ErrParentNotOwned.Marshal(),
+			}
+		}
+""", """		_ = bytes.Equal
+		_ = codes.ErrParentNotOwned
+"""))
+M("purchase-credits-buyer", "C20", "C20.purchase",
+  ("action/ons/purchase.go", """		err = ctx.Balances.AddToAddress(domain.Owner, sale)""", """		err = ctx.Balances.AddToAddress(buy.Buyer, sale)"""))
+M("purchase-price-check-dropped", "C20", "C20.purchase",
+  ("action/ons/purchase.go", """		if !sale.LessThanEqualCoin(olt.NewCoinFromAmount(buy.Offering.Value)) {
+			return false, action.Response{Log: "offering is not enough"}
+		}
+""", ""))
+M("purchase-not-on-sale-allowed", "C20", "C20.purchase",
+  ("action/ons/purchase.go", """	if !domain.OnSaleFlag && (ctx.State.Version() <= domain.ExpireHeight) {
+		return false, action.Response{Log: "domain is not on sale or expired"}
+	}
+""", """	if !domain.OnSaleFlag && !domain.ActiveFlag && (ctx.State.Version() <= domain.ExpireHeight) {
+		return false, action.Response{Log: "domain is not on sale or expired"}
+	}
+"""))
+M("send-credits-owner", "C20", "C20.send",
+  ("action/ons/send.go", """	to := domain.Beneficiary
+""", """	to := domain.Owner
+"""))
+M("renew-extension-from-options", "C20", "C20.expiry",
+  ("action/ons/renew.go", """	extend, err := calculateRenewal(&renewDomain.BuyingPrice.Value, &opt.PerBlockFees)""", """	extend, err := calculateRenewal(&opt.BaseDomainPrice, &opt.PerBlockFees)"""))
+R("update-owner-check-helper", ["C20"],
+  ("action/ons/update.go", """	if !bytes.Equal(d.Owner, update.Owner) {
+		return false, action.Response{Log: fmt.Sprintf("domain is not owned by: %s", hex.EncodeToString(update.Owner))}
+	}
+""", """	if owned := d.Owner.Equal(update.Owner); !owned {
+		return false, action.Response{Log: fmt.Sprintf("domain is not owned by: %s", hex.EncodeToString(update.Owner))}
+	}
+	_ = bytes.Equal
+"""))
